@@ -1,6 +1,7 @@
 import ComposeVerif.Ops.Common
 import ComposeVerif.Model.Heap
 import ComposeVerif.Gen.CopyPlan
+import ComposeVerif.Model.Derivations
 /-! line-protocol ops for C14: `c14.copy` (model of the generated deep copy), `c14.spec` (isolation decided by the spec) -/
 open Lean
 namespace CV.Ops.C14
@@ -120,6 +121,43 @@ def specOp : Handler := fun args =>
   | .error e, _ => Json.mkObj [("bad", .str e)]
   | _, .error e => Json.mkObj [("bad", .str e)]
 
-def handlers : List (String × Handler) := [("c14.copy", copyOp), ("c14.spec", specOp)]
+/-- map children in key order (the wire format's canonical order) -/
+partial def sortMaps : GoVal → GoVal
+  | .ptr a v => .ptr a (sortMaps v)
+  | .slice a ks => .slice a (ks.map fun kv => (kv.1, sortMaps kv.2))
+  | .struct ks => .struct (ks.map fun kv => (kv.1, sortMaps kv.2))
+  | .map a ks =>
+    let key (k : Key) : String := match k with | .str s => s | _ => ""
+    let sorted := (ks.map fun kv => (kv.1, sortMaps kv.2)).toArray.qsort (fun x y => key x.1 < key y.1)
+    .map a sorted.toList
+  | v => v
+
+def pdataOf (j : Json) : PData :=
+  match j with
+  | .arr a => some (a.toList.map fun x => match x with | .str s => s | _ => "")
+  | _ => none
+
+/-- the heap program of a derivation run on the encoded receiver: result, error class, and what the model observed
+about its own run (receiver variable unchanged, every write above the receiver's frontier) -/
+def derivOp : Handler := fun args =>
+  match rootOf "Project", CV.Heap.Deriv.programs.find? (fun p => p.1 == getStr args "op"), ofJson (getObj args "src") with
+  | some (ty, plan), some (_, prog), .ok src =>
+    let n := (oaddrs src).foldl (fun m a => max m (a+1)) (frontier src)
+    let pargs : List (String × PData) := match getObj args "pargs" with
+      | .obj o => o.toList.map fun (k, v) => (k, pdataOf v)
+      | _ => []
+    let st := runProg ty plan prog src pargs n
+    let recvSame := (toJson (getVar "p" st.vars)).compress == (toJson src).compress
+    let confined := st.log.all fun w => n ≤ w.1
+    let res := getVar "result" st.vars
+    Json.mkObj [("res", if st.err.isSome && (match res with | .nil => true | _ => false) then Json.null else toJson (sortMaps res)),
+      ("err", match st.err with | some e => Json.str e | none => Json.null),
+      ("recvUnchanged", Json.bool recvSame), ("confined", Json.bool confined), ("rf", Json.bool (rfL prog)),
+      ("writes", (st.log.length : Nat))]
+  | none, _, _ => Json.mkObj [("bad", "no Project root")]
+  | _, none, _ => Json.mkObj [("bad", .str ("no program for " ++ getStr args "op"))]
+  | _, _, .error e => Json.mkObj [("bad", .str e)]
+
+def handlers : List (String × Handler) := [("c14.copy", copyOp), ("c14.spec", specOp), ("c14.deriv", derivOp)]
 
 end CV.Ops.C14
